@@ -33,6 +33,8 @@ structure Disc where
   name : String
   inputs : List String
   outputs : List String
+  /-- the state variables of the discipline (`io.residual_to_state_variable.values()`) -/
+  states : List String := []
   deriving Repr
 
 /-- `outputs_i & inputs_j` (as a list, in the order of the outputs). -/
@@ -149,9 +151,10 @@ def sortDedup (l : List String) : List String :=
 
 /-! ### `CouplingStructure` -/
 
-/-- `is_self_coupled` (without residual/state variables): an output is also an input. -/
+/-- `is_self_coupled`: an output is also an input, state variables (solved by the discipline
+    itself) not counted. -/
 def selfCoupled (d : Disc) : Bool :=
-  d.inputs.any (fun v => d.outputs.contains v)
+  d.inputs.any (fun v => d.outputs.contains v && !d.states.contains v)
 
 def selfCoupledAt (ds : List Disc) (i : Nat) : Bool :=
   match ds[i]? with
@@ -186,6 +189,9 @@ def inputsAt (ds : List Disc) (i : Nat) : List String :=
 
 def outputsAt (ds : List Disc) (i : Nat) : List String :=
   match ds[i]? with | some d => d.outputs | none => []
+
+def statesAt (ds : List Disc) (i : Nat) : List String :=
+  match ds[i]? with | some d => d.states | none => []
 
 /-- `_compute_strong_couplings`. -/
 def strongCouplings (ds : List Disc) (seq : List (List (List Nat))) : List String :=
@@ -268,16 +274,16 @@ def chainGrammar (ds : List Disc) : List String × List String :=
 
 /-- The grammars of an inner MDA (`BaseMDA._initialize_grammars`): unions over the members. -/
 def mdaDisc (ds : List Disc) (group : List Nat) : Disc :=
-  ⟨"MDA", group.flatMap (inputsAt ds), group.flatMap (outputsAt ds)⟩
+  ⟨"MDA", group.flatMap (inputsAt ds), group.flatMap (outputsAt ds), []⟩
 
 /-- The grammars of an `MDOChain` of sub-processes. -/
 def chainDisc (bs : List Disc) : Disc :=
   let g := chainGrammar bs
-  ⟨"MDOChain", g.1, g.2⟩
+  ⟨"MDOChain", g.1, g.2, []⟩
 
 /-- The grammars of an `MDOParallelChain` of sub-processes: unions. -/
 def parDisc (bs : List Disc) : Disc :=
-  ⟨"MDOParallelChain", bs.flatMap (·.inputs), bs.flatMap (·.outputs)⟩
+  ⟨"MDOParallelChain", bs.flatMap (·.inputs), bs.flatMap (·.outputs), []⟩
 
 /-- `MDAChain.__requires_mda`. -/
 def requiresMda (ds : List Disc) (group : List Nat) : Bool :=
@@ -291,7 +297,7 @@ def mdaChainGrammar (ds : List Disc) (seq : List (List (List Nat))) (parallel : 
       -- `MDAGaussSeidel._initialize_grammars` is the chain rule, `BaseMDA`'s is the union
       (if gaussSeidel then chainDisc (g.filterMap (fun i => ds[i]?)) else mdaDisc ds g)
     else match g with
-      | [d] => (ds[d]?).getD ⟨"", [], []⟩
+      | [d] => (ds[d]?).getD ⟨"", [], [], []⟩
       | _ => mdaDisc ds g
   let stageOf : List (List Nat) → Disc := fun stage =>
     match stage with
